@@ -69,6 +69,10 @@ class Scheduler(object):
         # lock releases (by ordinal) after which the releasing task hands
         # the baton to another runnable task; 'all' = every release
         self.release_yields = release_yields
+        self.quantum = 20000
+        self.current_run_owner = None
+        self.current_run_len = 0
+        self.quantum_switches = 0
         self.releases = 0
         self.fired_release_yields = 0
 
@@ -199,6 +203,26 @@ class Scheduler(object):
             self.abort('step cap')
             raise SimAbort()
         t.points += 1
+        # fairness in the limit: a task that has run a whole quantum of
+        # traced lines without blocking while others are runnable (a spin
+        # wait, a polling loop) is pre-empted, as any real scheduler would;
+        # ordinary requests need a fraction of the quantum, so plan-chosen
+        # schedules are unaffected
+        if self.current_run_owner is not t:
+            self.current_run_owner = t
+            self.current_run_len = 0
+        self.current_run_len += 1
+        if self.current_run_len > self.quantum:
+            self.current_run_len = 0
+            others = [x for x in self.runnable() if x is not t]
+            if others and self.quantum_switches < 300:
+                self.quantum_switches += 1
+                # a quantum burnt by a waiting loop is not progress towards
+                # the step budget of the workload
+                self.step_cap += self.quantum
+                k = self.quantum_switches % len(others)
+                self._handoff(t, 'quantum', to=others[k])
+                return
         key = (t.name, t.points)
         if key in self.preempts:
             to = self.preempts[key]
